@@ -462,6 +462,15 @@ class Check:
                     tr = pytrans.Translator(known={}, given=dep["given"], omitted=dep.get("omitted", ()))
                     defs.append(tr.function(pytrans.source_of(dep["file"]), dep["py"], "tr_" + dep["name"], dep["params"]))
                     known[dep["py"]] = ("tr_" + dep["name"], 1)
+                if "pattern" in t:       # one expression cut out of a function body
+                    etr = pytrans.ExpressionTranslator(dict(t["vars"]))
+                    order = [a for a, _ in t["vars"]]
+                    defs.append(etr.expression(pytrans.source_of(t["file"]), t["pattern"], "tr_" + t["name"], order))
+                    bind = " ".join(f"(v_{a} : {k})" for a, k in t["vars"])
+                    lemma = (f"Lemma tie_{t['name']} : forall (T : Type) (N : Num T) {bind},\n"
+                             f"  tr_{t['name']} N {' '.join('v_' + a for a in order)} = {t['model']}.\nProof. intros. reflexivity. Qed.\n")
+                    texts[t["name"]] = tt.IMPORTS + "\n".join(defs) + "\n" + lemma
+                    continue
                 if "accumulation" in t:  # `out = 0; for i in range(lo, hi): out += e; return out`
                     atr = pytrans.AccumulationTranslator()
                     defs.append(atr.accumulation(pytrans.source_of(t["file"]), t["py"], "tr_" + t["name"], [tuple(x) for x in t["accumulation"]]))
